@@ -218,7 +218,7 @@ impl AstLowering {
                 let loop_var_ty = match &iterable.ty {
                     IrType::List(elem) => (**elem).clone(),
                     IrType::Dict(k, _) => (**k).clone(),
-                    IrType::String => IrType::String,
+                    IrType::String | IrType::StaticStr | IrType::StrRef => IrType::String,
                     _ => IrType::Unknown,
                 };
                 if let Some(scope) = self.scopes.last_mut() {
